@@ -303,6 +303,45 @@ def text_tie_search(run, prop):
                       key='textsplice|%s|%s' % (pr['definition'], pr['code'][2].hex()))
 
 
+def ignore_group_tie(run):
+    """IgnoreFlags::parse_group against its Lean model (IgnoreGroup.parseGroup; wellFormed_sets_flag, flag_needs_case): token lists of
+    the group, well-formed and malformed; observed on the real derive: refused or not, and whether the token became case-insensitive"""
+    groups = [['case'], ['case', ','], ['case', ',', 'case'], ['case', ',', 'case', ','], [], [','], ['ascii_case'], ['Case'], ['case', 'case'],
+              ['case', ',', ','], ['"x"'], ['case', ',', 'nope'], ['case', '=', '1'], ['nope', ',', 'case'], ['case', ',', 'ascii_case'], ['3'], ['case', ';'],
+              [',', 'case'], ['case', ',', 'case', ',', 'case']]
+    srcs = [F.enum([], ['#[token("k")] A,'])]
+    for g in groups:
+        srcs.append(F.enum([], ['#[token("k", ignore(%s))] A,' % ' '.join(g)]))
+    caps = P.run_capture(srcs)
+    plain = [l for l in caps[0].dump if l.startswith('HIR 0')]
+    lines = ['CASE ig']
+    qs = []
+    for g in groups:
+        toks = ['c' if t == ',' else ('i:' + t if t.isidentifier() else 'o') for t in g]
+        q = 'Q IGNOREGRP ' + ' '.join(toks)
+        qs.append(q)
+        lines.append(q)
+    ans = P.run_lean(lines, nproc=1)
+    same = 0
+    for g, q, cap in zip(groups, qs, caps[1:]):
+        mv = ans.get('ig ' + q[2:], '')
+        if cap is None or cap.verdict not in ('ACCEPT', 'REJECT'):
+            continue
+        real_err = cap.verdict == 'REJECT'
+        real_flag = None if cap.nodump else ([l for l in cap.dump if l.startswith('HIR 0')] != plain)
+        m = dict(x.split('=') for x in mv.split(' ')) if mv else {}
+        ok = bool(m) and (int(m['errs']) > 0) == real_err and (real_err or real_flag is None or (m['flag'] == '1') == real_flag)
+        if ok:
+            same += 1
+        else:
+            run.violation('tie', dict(group='ignore(%s)' % ' '.join(g), model=mv, derive_verdict=cap.verdict, token_became_case_insensitive=real_flag,
+                                      correspondence='IgnoreFlags::parse_group vs LogosModel.IgnoreGroup.parseGroup'), no_input=True, key='igtie|' + ' '.join(g))
+            if not real_err and real_flag is False and 'case' in g and all(t in ('case', ',') for t in g) and g[0] == 'case' and ',,' not in ''.join(g):
+                run.violation('flag-dropped', dict(definition=srcs[1 + groups.index(g)], what='an accepted spelling of ignore(case ...) leaves the token case-sensitive', input_text='K'),
+                              key='igdrop|' + ' '.join(g))
+    return dict(groups=len(groups), agree=same)
+
+
 def check_c10(tier, seed, log=print):
     run = start('C10', tier, seed)
     R = random.Random(seed)
@@ -379,6 +418,7 @@ def check_c10(tier, seed, log=print):
                           key='rc|%s|%s' % (cases[i]['src'], hexs(w)))
     run.coverage['text_pipeline_predicted'] = TP.tie(cases, caps, P.run_lean)
     text_tie_search(run, 'C10')
+    run.coverage['ignore_group_model'] = ignore_group_tie(run)
     run.coverage.update(dict(evaluations=n + tc, distinct_nontrivial=eq, equivalences_proved=eq, undecided=unknown, literal_hirs_checked=lit_ok,
                              regex_crate_comparisons=tc,
                              rule='tokens (str and byte-string literals over metacharacters, cased non-ASCII, arbitrary bytes), regexes and skips, with and without ignore(case), each paired in one enum with an independently written reference form '
